@@ -285,7 +285,7 @@ func (cs *ContractSet) directive(cur **Contract, body, path string, ln int, pkgP
 			cs.GuardDecls = append(cs.GuardDecls, [2]string{pkgPath, rest})
 			return nil
 		}
-	case "mapinit", "callsonly":
+	case "mapinit", "callsonly", "mapwritesonly":
 		d, err := parseStaticDecl(word, rest)
 		if err != nil {
 			return fail("%v", err)
